@@ -82,3 +82,26 @@ CHECKS["C09"] = hist("TestC09", GEN + "Sequences of 2-4 configurations (ranges s
     "table entry or FloatingIP object outside the configuration. Non-trivial = a reload dropped >=1 allocated IP and kept >=1, or a "
     "reload overlapped another operation.", quick=2500, thorough=120000, floors={"reservation": 0.03, "reload_dropped_and_kept": 0.03},
     extra_assume=["at most one reload, one resync/pod-IP-sync pass and one informer event handler run at a time (single goroutine sources in galaxy-ipam)"])
+
+IPAM_ASSUME = ["fake API server (client-go object tracker); pre-states are built through the real IPAM (AllocateSpecificIP)",
+               "IPv4; node subnets pairwise identical or disjoint; requested range lists pairwise disjoint (precondition of the feature)"]
+CHECKS["C06"] = {"pkg": "ipamsim", "test": "TestC06", "level": "exploration",
+    "quick": {"checks": 4000, "timeout": 900}, "thorough": {"checks": 200000, "shards": 16, "timeout": 2400, "test": "TestC06All"},
+    "rule": "rapid draws a topology (pools sharing pod subnets with disjoint ranges, node subnets shared by pools, /32 node subnets), 1-6 nodes "
+            "(some outside every subnet or without InternalIP), a pre-state (random allocations to other owners, one pool exhausted), a pod "
+            "(statefulset/deployment/custom resource/bare; default/immutable/never; 0-3 requested range lists; 0-2 IPs already held) and a "
+            "candidate node subset. Oracle computed from the configuration text model: exact filter set for fresh default-policy pods, "
+            "routability of held IPs, bind on a returned node succeeds, every payload IP routable from the node with its pool's mask/"
+            "gateway/VLAN. thorough binds every returned node on a rebuilt world. Non-trivial = >=2 node subnets and the filter both "
+            "accepted and rejected candidates.",
+    "assumptions": IPAM_ASSUME, "floors": {"fresh_default_pod": 0.2, "request_ranges": 0.1}}
+CHECKS["C08"] = {"pkg": "ipamsim", "test": "TestC08", "level": "fault_enumeration",
+    "quick": {"checks": 1500, "timeout": 900}, "thorough": {"checks": 100000, "shards": 16, "timeout": 2400},
+    "rule": "rapid draws a topology, k=1-4 pairwise-disjoint requested range lists (some partly outside the configuration), a pre-state "
+            "(IPs owned by others, 0-2 IPs of the ranges already owned by the same key) and a node; for every index j=0..k the j-th "
+            "FloatingIP creation is made to fail (j=0: no fault), at two levels: AllocateInSubnetsAndIPRange directly and Filter->Bind "
+            "through the plugin. Oracle: success => exactly one distinct routable IP per list in request order, pre-owned IPs reused; "
+            "failure => tables and store equal the pre-state; success iff the model says every list has a free routable IP. "
+            "Non-trivial = k>=2 and (a creation failed at index >=1, a range was exhausted, or a range was pre-owned).",
+    "assumptions": IPAM_ASSUME + ["no cloud provider (the statement is about store calls)", "a failing creation has no effect"],
+    "floors": {"create_failed_at_index_ge_1": 0.03}}
